@@ -109,7 +109,7 @@ def _explore(args):
 
 
 # ----------------------------------------------------------------------------------------------- harness run
-def run_harness(prop, tier, hi, h, pool, log):
+def run_harness(prop, tier, hi, h, pool, log, dense_samples=False):
     t0 = time.time()
     deadline = t0 + h.budget_s
     agg = dict(name=h.name, what=h.what, paths=0, nontrivial_paths=0, decisions_two_sided=0, forced=0, queries=0,
@@ -132,7 +132,7 @@ def run_harness(prop, tier, hi, h, pool, log):
             agg["status"] = st["status"]
 
     # pass 1: master explores down to the frontier depth (in a worker process, so the parent stays z3-free)
-    st = pool.apply(_explore, ((prop, tier, hi, None, deadline, h.frontier, False, True, None, 2),))
+    st = pool.apply(_explore, ((prop, tier, hi, None, deadline, h.frontier, False, True, None, 8 if dense_samples else 2),))
     agg["funcs"] = st["funcs"]
     frontier = st["frontier"]
     merge(st)
@@ -140,7 +140,7 @@ def run_harness(prop, tier, hi, h, pool, log):
     log("  [%s] pre-pass: %d paths, %d partitions, %.1fs" % (h.name, st["paths"], len(frontier), st["wall_s"]))
     # pass 2: partitions in parallel
     if frontier and agg["status"] != "error":
-        jobs = [(prop, tier, hi, pre, deadline, None, False, False, None, 1 if i < 6 else 0)
+        jobs = [(prop, tier, hi, pre, deadline, None, False, False, None, (2 if dense_samples else (1 if i < 6 else 0)))
                 for i, pre in enumerate(frontier)]
         for st in pool.imap_unordered(_explore, jobs):
             merge(st)
@@ -157,14 +157,14 @@ def run_harness(prop, tier, hi, h, pool, log):
 
 
 # ----------------------------------------------------------------------------------------------- replay
-def replay_real(prop, tier, hname, vectors, timeout=900):
+def replay_real(prop, tier, hname, vectors, timeout=1800, mode="cex"):
     """run input vectors through the harness on the RealBackend in a fresh process; returns list of results"""
     if not vectors:
         return []
     os.makedirs(os.path.join(VERIF, "work"), exist_ok=True)
     req = os.path.join(VERIF, "work", "replayreq-%s-%s-%d.json" % (prop, hname, os.getpid()))
     with open(req, "w") as f:
-        json.dump({"property": prop, "tier": tier, "harness": hname, "vectors": vectors}, f)
+        json.dump({"property": prop, "tier": tier, "harness": hname, "vectors": vectors, "mode": mode}, f)
     try:
         p = subprocess.run([sys.executable, "-m", "verif.replay", "--batch", req], cwd=VERIF, capture_output=True,
                            text=True, timeout=timeout, env=dict(os.environ, PYTHONHASHSEED="0"))
@@ -179,6 +179,45 @@ def replay_real(prop, tier, hname, vectors, timeout=900):
         if line.startswith("REPLAY-RESULT "):
             return json.loads(line[len("REPLAY-RESULT "):])
     return [{"error": "replay crashed: %s" % (p.stderr[-2000:] or p.stdout[-2000:])}] * len(vectors)
+
+
+def witness_path(prop):
+    return os.path.join(VERIF, "verif", "witness", "%s.json" % prop)
+
+
+def load_witness(prop, tier, hname):
+    try:
+        d = json.load(open(witness_path(prop)))
+    except (OSError, ValueError):
+        return []
+    return d.get(tier, {}).get(hname, []) or d.get("quick", {}).get(hname, [])
+
+
+def update_witness(prop, tier, out=print):
+    """regenerate the committed corpus of solver witnesses (one input vector per sampled path) for the fallback replays"""
+    hs = load_harnesses(prop, tier)
+    ctx = mp.get_context("fork")
+    try:
+        d = json.load(open(witness_path(prop)))
+    except (OSError, ValueError):
+        d = {}
+    d.setdefault(tier, {})
+    with ctx.Pool(int(os.environ.get("VERIF_JOBS", "16")), maxtasksperchild=20) as pool:
+        for hi, h in enumerate(hs):
+            if not h.real:
+                continue
+            agg = run_harness(prop, tier, hi, h, pool, out, dense_samples=True)
+            vecs, seen = [], set()
+            for s_ in agg["samples"]:
+                k = json.dumps(s_["inputs"], sort_keys=True)
+                if k not in seen:
+                    seen.add(k)
+                    vecs.append(s_["inputs"])
+            step = max(1, len(vecs) // 40)
+            d[tier][h.name] = vecs[::step][:40]
+            out("  witness corpus %s: %d vectors" % (h.name, len(d[tier][h.name])))
+    os.makedirs(os.path.dirname(witness_path(prop)), exist_ok=True)
+    json.dump(d, open(witness_path(prop), "w"), indent=0, sort_keys=True)
 
 
 def load_known():
@@ -229,6 +268,25 @@ def check_property(prop, tier, seed, out=print):
                    agg["wall_s"], len(agg["violations"])))
             if agg["status"] == "error":
                 harness_errors += ["%s: %s" % (h.name, e) for e in agg["errors"]]
+                # the symbolic model could not follow the code under test (model gap / concretisation): as a safety net the
+                # committed solver witnesses of this harness are replayed concretely on the real program
+                if h.real:
+                    vecs = load_witness(prop, tier, h.name)
+                    rr = replay_real(prop, tier, h.name, vecs, mode="conformance")
+                    traces_validated += len(rr)
+                    agg["fallback_witness_replays"] = len(rr)
+                    seen_a = set()
+                    for vec, r in zip(vecs, rr):
+                        if r.get("violation") and r["violation"]["assert"] not in seen_a:
+                            seen_a.add(r["violation"]["assert"])
+                            rv = dict(r["violation"], harness=h.name)
+                            k = match_known(known, prop, rv)
+                            if k:
+                                known_seen.append((k, rv))
+                            else:
+                                v = {"inputs": vec, "assert": rv["assert"], "detail": rv["detail"], "harness": h.name,
+                                     "note": "found by concrete replay of committed solver witnesses after a model gap"}
+                                confirmed.append((v, r, write_replay_file(prop, tier, h.name, v, r)))
                 continue
             if agg["status"] != "exhausted":
                 inconclusive.append("%s: %s" % (h.name, agg["status"]))
@@ -263,7 +321,7 @@ def check_property(prop, tier, seed, out=print):
             # ---- conformance: passing paths replayed on the real program must pass there too
             if h.real and h.conformance and not agg["violations"]:
                 vecs = [s["inputs"] for s in agg["samples"][:h.conformance]]
-                rr = replay_real(prop, tier, h.name, vecs)
+                rr = replay_real(prop, tier, h.name, vecs, mode="conformance")
                 for vec, r in zip(vecs, rr):
                     traces_validated += 1
                     if r.get("violation"):
@@ -346,7 +404,7 @@ def write_evidence(prop, tier, seed, results, traces_validated, nviol, known_key
         "functions_encoded": funcs,
         "harnesses": [{k: r.get(k) for k in ("name", "what", "status", "paths", "nontrivial_paths", "partitions",
                                              "decisions_two_sided", "forced", "queries", "solver_s", "wall_s",
-                                             "max_depth", "dropped_infeasible", "twin_paths", "twin_violations",
+                                             "max_depth", "dropped_infeasible", "twin_paths", "twin_violations", "fallback_witness_replays",
                                              "bounds", "outside", "reach", "violation_keys", "errors")}
                       for r in results],
         "known_findings_seen": sorted(set(known_keys)),
@@ -388,6 +446,7 @@ def main(argv=None):
     ap.add_argument("prop")
     ap.add_argument("--tier", default=os.environ.get("VERIF_TIER", "quick"))
     ap.add_argument("--replay")
+    ap.add_argument("--update-witness", action="store_true")
     a = ap.parse_args(argv)
     seed = int(os.environ.get("VERIF_SEED", "0"))
     if a.replay:
@@ -397,6 +456,9 @@ def main(argv=None):
     if os.path.dirname(os.path.abspath(ascmhl.__file__)) != "/repo/ascmhl":
         print("HARNESS-ERROR ascmhl imported from %s, not /repo" % ascmhl.__file__)
         return EXIT_HARNESS
+    if a.update_witness:
+        update_witness(a.prop.upper(), a.tier)
+        return 0
     try:
         return check_property(a.prop.upper(), a.tier, seed)
     except pse.PseAbort as ex:
